@@ -227,6 +227,17 @@ pub fn stmts(tier: Tier) -> Vec<String> {
         "x = to_int(x) ?? 0", "x = values(x)", "x = unique(x)", "x = length(x)", "x = join(x) ?? \"\"", "x = split(\"a,b\", \",\")", "x = split(\"a,b\", \",\")[1]",
         "x = parse_key_value(\"a=1\") ?? {}", "x = object!(.a)", "x = array!(.a)", "x = .a[0] || .a.b", "x = object_from_array([[\"k\", 1]]) ?? {}",
         "x = zip([1, 2], [\"a\"])", "x = chunks(\"abcd\", 2)", "x = match_array([\"a\"], r'a')", "x = tally([\"a\", \"a\"])", "x = type_def(.a)",
+        // wave 9: type state across diverging branches, failing left operands, negation, call arguments
+        "if .c == true { x = 1 } else { abort }", "if .c == true { x = \"s\"; abort }", "if .c == true { x = \"s\" } else if .a == 1 { abort } else { x = 1 }",
+        "if .c == true { x = {\"a\": 1}; return x } else { x = [1] }", "z = ({ x = \"s\"; to_int(.a) } ?? 0)", "z = ({ x = \"s\"; to_int(.a) } ?? { x = 1; 0 })",
+        "z, err = { x = \"s\"; to_int(.a) }", "x, err = { x = \"s\"; to_int(.a) }", "z = !{ x = \"s\"; .c == true }", "z = !(x = false)",
+        "y = upcase((x = \"s\"))", "y = push([(x = 1)], x)", "y = to_string((x = 2)) + to_string(x)", "x = (x = 1) + 1", "y = if .c == true { x = 1; x } else { x = \"s\"; 0 }",
+        "x = if .c == true { 1 } else if .a == 1 { \"s\" }", "x = { y = \"s\"; if .c == true { y = 1 }; y }", "z = (to_int(.a) ?? to_int(.b) ?? { x = null; 0 })",
+        "z = (.c == true && (x = true))", "z = (.a ?? { x = \"never\"; 0 })",
+        // consumers that are only accepted when the operand types make them infallible (normally rejected
+        // under `any`: a checker that wrongly accepts them is caught by the run)
+        "y = x < 1", "y = x >= .a", "y = .a > .b", "y = !x", "y = x | {\"m\": 1}", "if x { y = 1 }", "if .a { y = 1 } else { y = \"s\" }",
+        "y = \"t{{ x }}\"", "y = x <= \"a\"", "y = x != null && x", "y = x > 0 || x < 0", "y = [x < 1, x * 2]", "y = x.b + 1", "y = x[0] - 1",
     ] {
         add(s);
     }
@@ -859,6 +870,9 @@ fn run_for(property: &'static str, tier: Tier) -> Report {
     for s in res.samples {
         rep.sample(s);
     }
+    if property == "C01" || property == "C02" {
+        crate::props::opgrid::run(&mut rep, if property == "C01" { "C01" } else { "C02" }, tier);
+    }
     rep
 }
 
@@ -877,6 +891,9 @@ pub fn run_c16(tier: Tier) -> Report {
 
 /// Replay one witness: {config, event, metadata, program: [stmts], mode}.
 pub fn replay(property: &str, w: &J) -> Vec<Violation> {
+    if w.get("opgrid").is_some() {
+        return crate::props::opgrid::replay(w);
+    }
     if w["config"] == "corpus(default env)" {
         let src = w["program"][0].as_str().unwrap_or("");
         let event = vv::dec(&w["event"]);
